@@ -318,6 +318,9 @@ Proof.
   - apply dec_bytes_stable.
   - sbind ltac:(apply dec_bytes_stable). intros v. cbv beta iota.
     destruct v; try apply stable_err. apply stable_ret.
+  - (* BigDecimal *)
+    sbind ltac:(apply dec_string_stable). intros v. cbv beta iota.
+    destruct v; try apply stable_err. destruct (BigDec.bd_parse bs); [apply stable_ret | apply stable_err].
   - (* DateTime<Utc> *)
     sbind ltac:(apply read_be_stable). intros y. cbv beta iota.
     destruct (valid_ts x y); [apply stable_ret | apply stable_err].
